@@ -92,16 +92,22 @@ pub fn place_on_matrix(
     let mut best_mask = MASKS[0];
 
     let mut qr = default::create_matrix(version);
+    verif_point!("place:blank");
     place_on_matrix_data(&mut qr, structure_as_binarystring);
 
+    verif_point!("place:data_placed");
     let transpose = default::transpose(&qr);
+    verif_point!("place:transposed");
 
     for mask in MASKS {
+        verif_point!("place:mask_iter");
         let mut copy = qr.clone();
         let copy_transpose = transpose.clone();
 
         datamasking::mask(&mut copy, mask);
+        verif_point!("place:mask_applied");
         let matrix_score = score::score(&copy, &copy_transpose);
+        verif_point!("place:scored");
         if matrix_score < best_score {
             best_score = matrix_score;
             best_mask = mask;
@@ -110,9 +116,12 @@ pub fn place_on_matrix(
 
     best_mask = mask.unwrap_or(best_mask);
     *mask = Some(best_mask);
+    verif_point!("place:mask_selected");
 
     default::create_matrix_format_info(&mut qr, quality, best_mask);
+    verif_point!("place:format_info");
     datamasking::mask(&mut qr, best_mask);
+    verif_point!("place:final_mask");
 
     qr.mask = *mask;
     qr
@@ -127,10 +136,13 @@ pub fn create_matrix(
     mask: &mut Option<Mask>,
 ) -> QRCode {
     let data_codewords = encode::encode(input, ecl, mode, version);
+    verif_point!("create:encoded");
     let structure = polynomials::structure(data_codewords.get_data(), ecl, version);
+    verif_point!("create:structured");
 
     let max = version.max_bytes() * 8;
     let structure_binstring = CompactQR::from_array(&structure, max + version.missing_bits());
+    verif_point!("create:binstring");
 
     QRCode {
         mode: Some(mode),
